@@ -1,20 +1,286 @@
 /-
-  C05 — the report does not depend on the schedule.  (Placeholder for the writer order-independence
-  theorems being proved in a separate file; the statement that already follows from the run model's
-  construction is recorded here.)
+  C05 — "The report does not depend on the schedule: N threads equals one thread".
+
+  The report is aggregated by ONE consumer (`ReportWriter`) from the event queue the worker threads feed.  What N threads
+  change, compared with one, is the ORDER in which the events of concurrently running tasks reach that consumer.  This file
+  proves that the aggregated report does not depend on that order:
+
+    (a) the rank-sorted accessors remove the order in which children arrived (guard: distinct sibling ranks; D5 without);
+    (b) two independent events commute: `independent_events_commute`, with `Indep` spelled out by `indep_iff`;
+    (c) two streams that differ by swaps of adjacent independent events — every interleaving of concurrently running,
+        mutually independent tasks (`interleavings_swapEquiv`) — give reports with the same content, hence, under the
+        guard, the same view: `report_independent_of_interleaving`.
+
+  What is NOT proved here (it is the subject of C01/C07 and of the harness streams): that the streams the real runner
+  produces under two schedules ARE swap-equivalent and obey the discipline `disc` (each result location started once, step
+  ends and logs emitted at the location of the emitting thread's current step, unique sibling names).
+
+  Part (a): what the rank-sorted accessors (`SuiteResult.get_tests/get_suites`, `Report.get_suites`:
+  `sorted(..., key=rank)`, stable) remove — the order in which children ARRIVED — and the exact guard under which they
+  remove it (pairwise distinct sibling ranks; defect D5 is the refutation without it).
 -/
-import LccModel.Model.Run
+import LccModel.Lemmas.WriterSwap
 
 namespace LccModel.C05
-open LccModel.Run
+open LccModel.Report LccModel.Writer
 
-/-- What a task emits is a function of the project, the fixture-instance state it starts from, the worker
-    and the decision taken for it — not of what other tasks do meanwhile: two runs of the same task from the
-    same inputs produce the same items, result and effects (the model validated against the real runs has no
-    other input; the interrupt `cut` and `failLookupsFrom` are fixed to `none` in schedule-independent runs). -/
-theorem task_output_is_a_function_of_its_inputs (P : Proj) (insts : Insts) (w : Nat) (t : TaskId) (run reason : Bool)
-    (kept : List Td) : ∀ o₁ o₂, o₁ = runTask P insts w t run reason kept none → o₂ = runTask P insts w t run reason kept none →
-      o₁.items = o₂.items ∧ o₁.res = o₂.res := by
-  intro o₁ o₂ h₁ h₂; subst h₁; subst h₂; exact ⟨rfl, rfl⟩
+/-- **Sorting removes arrival order** (uniqueness of the sorted permutation): under pairwise distinct ranks
+    `sorted(xs, key=rank)` is the same list for every arrival order `l₂` of the same elements `l₁`. -/
+theorem sortByRank_perm {α : Type} (rank : α → Nat) {l₁ l₂ : List α} (hp : l₁.Perm l₂) (hn : (l₁.map rank).Nodup) :
+    sortByRank rank l₁ = sortByRank rank l₂ :=
+  sortByRank_eq_of_perm rank hp hn
+
+/-- **…at every level of the tree**: two reports with the same content (`SameContent`: same report-level fields; at
+    every level the tests are a permutation of each other and the sub-suites a permutation up to `SameContent` of the
+    sub-suites; setup / teardown results equal) and pairwise distinct sibling ranks have the same deep rank-sorted view —
+    the suites, sub-suites and tests every reader (`get_suites()`, `get_tests()`) sees are equal, in the same order. -/
+theorem view_independent_of_arrival_order {r₁ r₂ : Report} (h : SameContent r₁ r₂) (hd : DistinctSiblingRanks r₁) :
+    view r₁ = view r₂ :=
+  view_eq_of_sameContent h hd
+
+/-- the guard is a property of the content, not of the arrival order -/
+theorem distinctSiblingRanks_of_sameContent {r₁ r₂ : Report} (h : SameContent r₁ r₂) (hd : DistinctSiblingRanks r₁) :
+    DistinctSiblingRanks r₂ :=
+  hd.of_sameContent h
+
+/-! ### D5: without the guard the view depends on arrival order -/
+
+def mdr (n : String) (rank : Nat) : Meta :=
+  { name := n, description := n, tags := [], properties := [], links := [], rank := rank }
+
+/-- suite `s`, then tests `a` and `b` of ranks `ra`, `rb`, started and ended in the order given by `aFirst` -/
+def twoTests (ra rb : Nat) (aFirst : Bool) : List Event :=
+  let a := [Event.testStart ["s", "a"] (mdr "a" ra) 2, .testEnd ["s", "a"] 3]
+  let b := [Event.testStart ["s", "b"] (mdr "b" rb) 2, .testEnd ["s", "b"] 3]
+  [.sessionStart 1, .suiteStart ["s"] (mdr "s" 0) 1] ++ (if aFirst then a ++ b else b ++ a) ++ [.suiteEnd ["s"] 4, .sessionEnd 5]
+
+/-- test names of the rank-sorted view, suite by suite -/
+def viewNames : Except WriterErr Report → List (List String)
+  | .ok r => (view r).map (fun s => s.tests.map (·.md.name))
+  | .error _ => []
+
+/-- **Refutation without `DistinctSiblingRanks` (defect D5)**: two tests of EQUAL rank (what `add_test_into_suite` produced
+    before fix a149e47: every added test had rank 0) arriving in the two possible orders give two different views — the
+    stable sort falls back to arrival order. -/
+theorem equal_ranks_view_depends_on_arrival_order :
+    viewNames (fold (twoTests 0 0 true)) = [["a", "b"]] ∧ viewNames (fold (twoTests 0 0 false)) = [["b", "a"]] ∧
+    (∀ r₁ r₂, fold (twoTests 0 0 true) = .ok r₁ → fold (twoTests 0 0 false) = .ok r₂ → view r₁ ≠ view r₂) := by
+  refine ⟨by decide, by decide, ?_⟩
+  intro r₁ r₂ h₁ h₂ hv
+  have h : viewNames (fold (twoTests 0 0 true)) = viewNames (fold (twoTests 0 0 false)) := by
+    rw [h₁, h₂]; simp only [viewNames, hv]
+  revert h
+  decide
+
+/-- non-vacuity of the guard: with distinct ranks (the fixed code) both arrival orders give the same view -/
+example : viewNames (fold (twoTests 0 1 true)) = [["a", "b"]] ∧ viewNames (fold (twoTests 0 1 false)) = [["a", "b"]] := by
+  decide
+
+/-! ## Part (b): independent events commute -/
+
+/-- **The independence condition, spelled out.**  `Indep e₁ e₂` holds iff both events have a footprint
+    (`evFoot`: the suite addressed + the field touched: end time / setup result / teardown result / the test of a given
+    name / the creation of the sub-suite of a given name — session-level events have none), the two footprints are different,
+    neither event is the START of a suite on the path of the suite the other addresses (the causal constraint "a suite
+    start precedes everything inside it"), and, if both are step / log events, they come from different threads. -/
+theorem indep_iff (e₁ e₂ : Event) :
+    Indep e₁ e₂ ↔ ∃ p a q b, evFoot e₁ = some (p, a) ∧ evFoot e₂ = some (q, b) ∧ (p, a) ≠ (q, b) ∧
+      (∀ n, a = .child n → ¬ (p ++ [n]) <+: q) ∧ (∀ m, b = .child m → ¬ (q ++ [m]) <+: p) ∧
+      (∀ t₁ t₂, evTid e₁ = some t₁ → evTid e₂ = some t₂ → t₁ ≠ t₂) := by
+  constructor
+  · intro h
+    obtain ⟨p, a, q, b, h1, h2, hf, ht⟩ := h.unpack
+    obtain ⟨f1, f2, f3⟩ := (footIndep_iff p a q b).mp hf
+    exact ⟨p, a, q, b, h1, h2, f1, f2, f3, ht⟩
+  · rintro ⟨p, a, q, b, h1, h2, f1, f2, f3, ht⟩
+    exact Indep.of_feet h1 h2 ((footIndep_iff p a q b).mpr ⟨f1, f2, f3⟩) ht
+
+/-- **Independent events commute.**  From any writer state `w`: if the handlers of `e₁` then `e₂` succeed within the
+    discipline (`disc`: a result location is started while no step binding points into it; step ends and logs are emitted at
+    the location of the emitting thread's current step), then so do `e₂` then `e₁`, and the two final states have the same
+    content (`StEq`): reports `SameContent`, every thread bound to the same step reference (`active_steps` equal as a
+    mapping). -/
+theorem independent_events_commute {e₁ e₂ : Event} (hi : Indep e₁ e₂) {w w₁ w₂ : WriterState}
+    (h1 : apply w e₁ = .ok w₁) (d1 : disc w e₁ = true) (h2 : apply w₁ e₂ = .ok w₂) (d2 : disc w₁ e₂ = true) :
+    ∃ w₁' w₂', apply w e₂ = .ok w₁' ∧ disc w e₂ = true ∧ apply w₁' e₁ = .ok w₂' ∧ disc w₁' e₁ = true ∧
+      SameContent w₂.report w₂'.report ∧ (∀ tid, w₂.active.lookup tid = w₂'.active.lookup tid) := by
+  obtain ⟨w₁', w₂', a, b, c, d, e⟩ := apply_comm hi h1 d1 h2 d2
+  exact ⟨w₁', w₂', a, b, c, d, e.report, e.active⟩
+
+/-- **…both orders are errors or both are ok**: within the discipline, `e₁; e₂` is handled without error from `w` iff
+    `e₂; e₁` is. -/
+theorem independent_events_fail_together {e₁ e₂ : Event} (hi : Indep e₁ e₂) (w : WriterState) :
+    (∃ w₁ w₂, dapply w e₁ = .ok w₁ ∧ dapply w₁ e₂ = .ok w₂) ↔ (∃ w₁ w₂, dapply w e₂ = .ok w₁ ∧ dapply w₁ e₁ = .ok w₂) := by
+  constructor
+  · rintro ⟨w₁, w₂, h1, h2⟩
+    obtain ⟨x, y, h3, h4, _⟩ := dapply_comm hi h1 h2
+    exact ⟨x, y, h3, h4⟩
+  · rintro ⟨w₁, w₂, h1, h2⟩
+    obtain ⟨x, y, h3, h4, _⟩ := dapply_comm hi.symm h1 h2
+    exact ⟨x, y, h3, h4⟩
+
+/-- **The same event on two states with the same content** (unique sibling names, because `find_suite` / the `_tests` dict
+    take the first child of a name): the handler succeeds on both or fails on both, and the results have the same content.
+    This is what lets a swap in the middle of a stream be followed through to its end. -/
+theorem same_event_on_same_content {e : Event} {w w' w₁ : WriterState} (hs : StEq w w') (hu : uniqNames w.report = true)
+    (h : apply w e = .ok w₁) : ∃ w₁', apply w' e = .ok w₁' ∧ StEq w₁ w₁' :=
+  apply_congr hs ((uniqNames_iff _).mp hu) h
+
+/-! ### what `Indep` covers -/
+
+/-- Events addressing two different (suite, field) pairs, none of them a suite start — test start / end / skipped /
+    disabled of different tests (of the same or of different suites), steps and logs of different tests or phases, setup /
+    teardown phases of different suites, suite ends — are independent as soon as their threads differ. -/
+theorem indep_of_different_results {e₁ e₂ : Event} {p q : Path} {a b : Field}
+    (h1 : evFoot e₁ = some (p, a)) (h2 : evFoot e₂ = some (q, b)) (hne : (p, a) ≠ (q, b))
+    (ha : ∀ n, a ≠ .child n) (hb : ∀ n, b ≠ .child n)
+    (ht : ∀ t₁ t₂, evTid e₁ = some t₁ → evTid e₂ = some t₂ → t₁ ≠ t₂) : Indep e₁ e₂ :=
+  Indep.of_feet h1 h2 ((footIndep_iff p a q b).mpr ⟨hne, fun n h => absurd h (ha n), fun n h => absurd h (hb n)⟩) ht
+
+/-- starts of two sibling suites (different names) are independent -/
+theorem indep_sibling_suite_starts (parent : Path) (x y : String) (mdx mdy : Meta) (t₁ t₂ : Time)
+    (hne : mdx.name ≠ mdy.name) :
+    Indep (.suiteStart (parent ++ [x]) mdx t₁) (.suiteStart (parent ++ [y]) mdy t₂) := by
+  refine Indep.of_feet (p := parent) (a := .child mdx.name) (q := parent) (b := .child mdy.name)
+    (by simp [evFoot]) (by simp [evFoot]) ((footIndep_iff _ _ _ _).mpr ⟨?_, ?_, ?_⟩) (by simp [evTid])
+  · simp [hne]
+  · intro n _ hp; have := hp.length_le; simp at this; omega
+  · intro n _ hp; have := hp.length_le; simp at this; omega
+
+def tA : Loc := .test ["s", "a"]
+def tB : Loc := .test ["s", "b"]
+
+/-- coverage, on concrete events (`Indep` is decidable) -/
+example :
+    -- test start / end / skipped / disabled of different tests, same suite or not
+    Indep (.testStart ["s", "a"] (mdr "a" 0) 1) (.testStart ["s", "b"] (mdr "b" 1) 1) ∧
+    Indep (.testStart ["s", "a"] (mdr "a" 0) 1) (.testEnd ["s", "b"] 2) ∧
+    Indep (.testEnd ["s", "a"] 1) (.testSkipped ["u", "b"] (mdr "b" 1) none 1) ∧
+    Indep (.testDisabled ["s", "a"] (mdr "a" 0) none 1) (.testEnd ["u", "a"] 2) ∧
+    -- steps and logs of different tests emitted by different threads
+    Indep (.stepStart tA "step" 1 5) (.stepStart tB "step" 2 5) ∧
+    Indep (.log tA (some "step") 1 .info "x" 5) (.check tB (some "step") 2 "c" true none 5) ∧
+    Indep (.stepEnd tA "step" 1 5) (.testEnd ["s", "b"] 6) ∧
+    -- starts of sibling suites, setup / teardown phases of different suites
+    Indep (.suiteStart ["s", "x"] (mdr "x" 0) 1) (.suiteStart ["s", "y"] (mdr "y" 1) 1) ∧
+    Indep (.suiteSetupStart ["s"] 1) (.suiteTeardownEnd ["u"] 2) ∧
+    Indep (.log (.suiteSetup ["s"]) none 1 .info "x" 5) (.stepStart (.suiteSetup ["u"]) "st" 2 5) ∧
+    -- a test of one suite and the start of a sub-suite of another
+    Indep (.testStart ["s", "a"] (mdr "a" 0) 1) (.suiteStart ["u", "x"] (mdr "x" 0) 1) := by decide
+
+/-- what is NOT independent (the causal constraints, and the per-thread / per-location order) -/
+example :
+    ¬ Indep (.suiteStart ["s"] (mdr "s" 0) 1) (.testStart ["s", "a"] (mdr "a" 0) 2) ∧      -- suite start before its content
+    ¬ Indep (.suiteStart ["s"] (mdr "s" 0) 1) (.suiteStart ["s", "x"] (mdr "x" 0) 2) ∧
+    ¬ Indep (.testStart ["s", "a"] (mdr "a" 0) 1) (.testEnd ["s", "a"] 2) ∧                -- same test
+    ¬ Indep (.log tA none 1 .info "x" 5) (.testEnd ["s", "a"] 6) ∧
+    ¬ Indep (.log tA none 1 .info "x" 5) (.log tB none 1 .info "y" 6) ∧                    -- same thread
+    ¬ Indep (.sessionStart 1) (.testEnd ["s", "a"] 6) := by decide
+
+/-! ## Part (c): interleavings -/
+
+/-- a stream handled without error within the discipline, from the empty report -/
+def Disciplined (es : List Event) : Prop := ∃ w, drun (initState) es = .ok w
+
+theorem fold_of_drun {es : List Event} {w : WriterState} (h : drun (initState) es = .ok w) : fold es = .ok w.report := by
+  simp only [fold, run_of_drun h]
+
+/-- **The report does not depend on the interleaving** (main theorem).  Let `es₂` be obtained from `es₁` by swaps of adjacent
+    independent events (`SwapEquiv` — any two schedules of the same run are related this way, see
+    `interleavings_swapEquiv`), and let `es₁` be handled without error within the discipline.  Then so is `es₂`; the two
+    aggregated reports have the same content (`SameContent`: same report-level fields, at every level the same tests and
+    sub-suites up to insertion order, with equal statuses, skip reasons, steps, logs, checks, attachments, times); and if
+    sibling ranks are pairwise distinct, the rank-sorted views every reader of the report goes through are EQUAL. -/
+theorem report_independent_of_interleaving {es₁ es₂ : List Event} (hsw : SwapEquiv es₁ es₂) (hd : Disciplined es₁) :
+    Disciplined es₂ ∧ ∃ r₁ r₂, fold es₁ = .ok r₁ ∧ fold es₂ = .ok r₂ ∧ SameContent r₁ r₂ ∧
+      (DistinctSiblingRanks r₁ → view r₁ = view r₂) := by
+  obtain ⟨w₁, h₁⟩ := hd
+  obtain ⟨w₂, h₂, hs⟩ := drun_swapEquiv hsw (StEq.refl _) (by decide) h₁
+  exact ⟨⟨w₂, h₂⟩, w₁.report, w₂.report, fold_of_drun h₁, fold_of_drun h₂, hs.report,
+    fun hdr => view_eq_of_sameContent hs.report hdr⟩
+
+/-- the two streams are handled without error together -/
+theorem disciplined_iff_of_swapEquiv {es₁ es₂ : List Event} (hsw : SwapEquiv es₁ es₂) : Disciplined es₁ ↔ Disciplined es₂ :=
+  ⟨fun h => (report_independent_of_interleaving hsw h).1, fun h => (report_independent_of_interleaving hsw.symm h).1⟩
+
+/-- the same, from an arbitrary pair of states with the same content, keeping the `active_steps` part of the conclusion -/
+theorem states_independent_of_interleaving {es₁ es₂ : List Event} (hsw : SwapEquiv es₁ es₂) {w w' w₁ : WriterState}
+    (hs : StEq w w') (hu : uniqNames w.report = true) (h : drun w es₁ = .ok w₁) :
+    ∃ w₂, drun w' es₂ = .ok w₂ ∧ StEq w₁ w₂ :=
+  drun_swapEquiv hsw hs hu h
+
+/-- **Any two interleavings of two mutually independent event sequences** (two tasks running concurrently on two threads:
+    each keeps its own order, every event of one is independent of every event of the other), after a common prefix and
+    before a common suffix, are swap-equivalent.  (N concurrent tasks: iterate.) -/
+theorem interleavings_swapEquiv {pre post A B es es' : List Event} (h : Interleaving A B es) (h' : Interleaving A B es')
+    (hi : ∀ a ∈ A, ∀ b ∈ B, Indep a b) : SwapEquiv (pre ++ es ++ post) (pre ++ es' ++ post) := by
+  have key : ∀ {x y : List Event}, SwapEquiv x y → SwapEquiv (pre ++ x ++ post) (pre ++ y ++ post) := by
+    intro x y hxy
+    induction hxy with
+    | refl => exact .refl _
+    | swap p q e₁ e₂ hi' =>
+      have := SwapEquiv.swap (pre ++ p) (q ++ post) e₁ e₂ hi'
+      simpa [List.append_assoc] using this
+    | trans _ _ ih1 ih2 => exact .trans ih1 ih2
+  exact key ((h.swapEquiv hi).trans (h'.swapEquiv hi).symm)
+
+/-- …hence every interleaving of two independent tasks gives the same report as every other -/
+theorem report_independent_of_interleaving_of_two_tasks {pre post A B es es' : List Event}
+    (h : Interleaving A B es) (h' : Interleaving A B es') (hi : ∀ a ∈ A, ∀ b ∈ B, Indep a b)
+    (hd : Disciplined (pre ++ es ++ post)) :
+    Disciplined (pre ++ es' ++ post) ∧ ∃ r₁ r₂, fold (pre ++ es ++ post) = .ok r₁ ∧ fold (pre ++ es' ++ post) = .ok r₂ ∧
+      SameContent r₁ r₂ ∧ (DistinctSiblingRanks r₁ → view r₁ = view r₂) :=
+  report_independent_of_interleaving (interleavings_swapEquiv h h' hi) hd
+
+/-! ### non-vacuity: two tests of one suite run by two threads, two interleavings -/
+
+def evA (tid : Nat) : List Event :=
+  [.testStart ["s", "a"] (mdr "a" 0) 2, .stepStart tA "st" tid 2, .log tA (some "st") tid .info "in a" 3,
+   .stepEnd tA "st" tid 4, .testEnd ["s", "a"] 4]
+def evB (tid : Nat) : List Event :=
+  [.testStart ["s", "b"] (mdr "b" 1) 2, .stepStart tB "st" tid 2, .check tB (some "st") tid "c" false none 3,
+   .stepEnd tB "st" tid 4, .testEnd ["s", "b"] 4]
+def preS : List Event := [.sessionStart 1, .suiteStart ["s"] (mdr "s" 0) 1]
+def postS : List Event := [.suiteEnd ["s"] 5, .sessionEnd 6]
+
+/-- one thread: `a` then `b` -/
+def sequentialRun : List Event := preS ++ (evA 1 ++ evB 1) ++ postS
+/-- two threads, `b` starts first and the events alternate -/
+def parallelRun : List Event :=
+  preS ++ [.testStart ["s", "b"] (mdr "b" 1) 2, .testStart ["s", "a"] (mdr "a" 0) 2, .stepStart tB "st" 2 2,
+    .stepStart tA "st" 1 2, .log tA (some "st") 1 .info "in a" 3, .check tB (some "st") 2 "c" false none 3,
+    .stepEnd tB "st" 2 4, .testEnd ["s", "b"] 4, .stepEnd tA "st" 1 4, .testEnd ["s", "a"] 4] ++ postS
+/-- two threads, `a` entirely before `b` -/
+def parallelRun' : List Event := preS ++ (evA 1 ++ evB 2) ++ postS
+
+theorem evA_evB_indep : ∀ a ∈ evA 1, ∀ b ∈ evB 2, Indep a b := by decide
+
+theorem parallelRun_swapEquiv : SwapEquiv parallelRun' parallelRun := by
+  refine interleavings_swapEquiv (A := evA 1) (B := evB 2) ?_ ?_ evA_evB_indep
+  · exact .left (.left (.left (.left (.left (.right (.right (.right (.right (.right .nil)))))))))
+  · exact .right (.left (.right (.left (.left (.right (.right (.right (.left (.left .nil)))))))))
+
+theorem disciplined_of_isSome {es : List Event} (h : (drun initState es).toOption.isSome = true) : Disciplined es := by
+  cases hr : drun initState es with
+  | ok w => exact ⟨w, hr⟩
+  | error e => simp [hr, Except.toOption] at h
+
+/-- the hypotheses of the main theorem are satisfiable… -/
+theorem parallelRun'_disciplined : Disciplined parallelRun' := disciplined_of_isSome (by decide)
+
+/-- insertion-ordered test names, suite by suite -/
+def insertionNames : Except WriterErr Report → List (List String)
+  | .ok r => r.suites.map (fun s => s.tests.map (·.md.name))
+  | .error _ => []
+
+/-- …and its conclusion is observable: in the alternating run `b` ARRIVED first, the views are equal (and equal to the
+    one-thread run's) -/
+example : insertionNames (fold parallelRun') = [["a", "b"]] ∧ insertionNames (fold parallelRun) = [["b", "a"]] ∧
+    viewNames (fold parallelRun') = [["a", "b"]] ∧ viewNames (fold parallelRun) = [["a", "b"]] ∧
+    viewNames (fold sequentialRun) = [["a", "b"]] := by decide
+
+example : ∃ r₁ r₂, fold parallelRun' = .ok r₁ ∧ fold parallelRun = .ok r₂ ∧ SameContent r₁ r₂ ∧
+    (DistinctSiblingRanks r₁ → view r₁ = view r₂) :=
+  (report_independent_of_interleaving parallelRun_swapEquiv parallelRun'_disciplined).2
 
 end LccModel.C05
